@@ -2,9 +2,9 @@
 # usage: tools/confirm_seed.sh <Cxx> <a|b>
 # Confirms a seeded change delivered by a sub-agent in /tmp/seed_out/<id>/: applies to HEAD, builds,
 # the unedited suite passes with it, its demonstration fails with it and passes without it.
-ID=$1; X=$2; SRC=/tmp/seed_out/$ID
+ID=$1; X=$2; BASE=${SEEDBASE:-/tmp/seed_out}; SRC=$BASE/$ID
 export GOFLAGS=-mod=mod GOPROXY=off GOSUMDB=off GOTOOLCHAIN=local; unset GOWORK
-W=/tmp/confirm_${ID}_$X; LOG=/tmp/seed_out/confirm_${ID}_$X.log
+W=/tmp/confirm_${ID}_$X; LOG=$BASE/confirm_${ID}_$X.log
 rm -rf $W; git -C /repo worktree add -q --detach $W HEAD || exit 2
 trap 'git -C /repo worktree remove --force $W' EXIT
 : > $LOG
